@@ -303,6 +303,10 @@ type segIn struct {
 	// Concurrent: the request was one of many issued at the same time against the same server; a
 	// replay issues it together with a crowd of other subtitle requests
 	Concurrent bool `json:"concurrent,omitempty"`
+	Snr        int64 `json:"snr"`  // -1 = not in the URL
+	Tsbd       int64 `json:"tsbd"` // -1 = not in the URL
+	Listed     bool  `json:"listed_in_mpd,omitempty"` // the segment was taken from the MPD's SegmentTimeline
+	MPDURL     string `json:"mpd_url,omitempty"`
 }
 
 func (in segIn) cue() int64 {
@@ -851,6 +855,8 @@ func gcd(a, b int64) int64 {
 
 type subsCfg struct {
 	Mode   string
+	Snr    int64 // -1 = not in the URL
+	Tsbd   int64 // -1 = not in the URL
 	StartS int64
 	CueDur int64 // 0 = default
 	Region int   // -1 = default
@@ -872,7 +878,7 @@ func (sc subsCfg) tl() lib.TLCfg {
 	if sc.Region >= 0 {
 		fmt.Fprintf(&sb, "timesubsreg_%d/", sc.Region)
 	}
-	return lib.TLCfg{StartS: sc.StartS, Snr: -1, Tsbd: -1, Mode: sc.Mode, Extra: sb.String()}
+	return lib.TLCfg{StartS: sc.StartS, Snr: sc.Snr, Tsbd: sc.Tsbd, Mode: sc.Mode, Extra: sb.String()}
 }
 
 func (r *runner) serverCases(ls *lib.Livesim, assets []*lib.TLAsset, generated bool, rng *rand.Rand, scale int) error {
@@ -908,7 +914,14 @@ func (r *runner) serverCases(ls *lib.Livesim, assets []*lib.TLAsset, generated b
 		N := int64(len(ref.Segs))
 		ts := ref.Timescale
 		for k := 0; k < perAsset; k++ {
-			sc := subsCfg{Mode: modes[k%3], Region: -1}
+			sc := subsCfg{Mode: modes[k%3], Region: -1, Snr: -1, Tsbd: -1}
+			// start number (small, the DASH default 1, huge) and time-shift buffer depth crossed with everything else
+			if rng.Intn(3) == 0 {
+				sc.Snr = []int64{1, 7, 5000, 4000000000}[rng.Intn(4)]
+			}
+			if rng.Intn(4) == 0 {
+				sc.Tsbd = []int64{20, 120}[rng.Intn(2)]
+			}
 			if rng.Intn(2) == 0 {
 				sc.Region = rng.Intn(2)
 			}
@@ -951,11 +964,17 @@ func (r *runner) serverCases(ls *lib.Livesim, assets []*lib.TLAsset, generated b
 			if n < 0 {
 				n = 0
 			}
+			if sc.Snr >= 0 && rng.Intn(2) == 0 {
+				n = int64(rng.Intn(4)) // the first segments after the start: times and numbers next to the start number
+			}
+			if sc.Snr > 1<<31 && n > 100000 {
+				n = rng.Int63n(100000) // start number + n stays a 32-bit number
+			}
 			cfg := sc.tl()
 			endMS := ref.LoopE(n)*1000/ts + sc.StartS*1000
 			now := endMS + 1500
 			// reference video segment as served
-			vid := n
+			vid := n + cfg.EffSnr()
 			if sc.Mode == "tlt" {
 				vid = ref.LoopS(n)
 			}
@@ -971,7 +990,7 @@ func (r *runner) serverCases(ls *lib.Livesim, assets []*lib.TLAsset, generated b
 				prefix = "timewvtt-"
 			}
 			rep := prefix + lang
-			sid := n
+			sid := n + cfg.EffSnr()
 			if sc.Mode == "tlt" {
 				sid = T // the $Time$ the MPD lists for this segment (checked against the MPD below)
 			}
@@ -985,9 +1004,12 @@ func (r *runner) serverCases(ls *lib.Livesim, assets []*lib.TLAsset, generated b
 				return fmt.Errorf("%s: %s", url, o.Err)
 			}
 			in := segIn{Kind: "segment", Asset: a.Path, Gen: generated, Wvtt: wvtt, Lang: lang, Langs: strings.Join(langs, ","), Mode: sc.Mode,
-				StartS: sc.StartS, CueDur: sc.CueDur, Region: sc.Region, N: n, NowMS: now, URL: url, RefURL: refURL, OffGrid: offGrid}
+				StartS: sc.StartS, CueDur: sc.CueDur, Region: sc.Region, N: n, NowMS: now, URL: url, RefURL: refURL, OffGrid: offGrid, Snr: sc.Snr, Tsbd: sc.Tsbd}
 			in.EffCue = in.cue()
 			in.LateU = (T + sc.StartS*1000) % 1000
+			if sc.Snr >= 0 {
+				c.Count("segment-with-start-number")
+			}
 			idn, id := r.id()
 			c.Res.Inputs[id] = in
 			kind := "stpp"
@@ -1096,7 +1118,7 @@ func (r *runner) concurrentCases(ls *lib.Livesim, assets []*lib.TLAsset, rng *ra
 			now := ref.LoopE(n)*1000/ts + 1500
 			for _, reg := range []int{0, 1} {
 				for _, cd := range cueDurs {
-					sc := subsCfg{Mode: "number", Region: reg, CueDur: cd, Stpp: langs, Wvtt: langs}
+					sc := subsCfg{Mode: "number", Region: reg, CueDur: cd, Stpp: langs, Wvtt: langs, Snr: -1, Tsbd: -1}
 					cfg := sc.tl()
 					ro := lib.SegObs{}
 					refURL := lib.SegURL(a, cfg, ref, n, now)
@@ -1111,7 +1133,7 @@ func (r *runner) concurrentCases(ls *lib.Livesim, assets []*lib.TLAsset, rng *ra
 							}
 							url := fmt.Sprintf("/livesim2/%s%s/%s%s/%d.m4s?nowMS=%d", cfg.URLPrefix(), a.Path, prefix, lang, n, now)
 							in := segIn{Kind: "segment", Asset: a.Path, Wvtt: wvtt, Lang: lang, Langs: strings.Join(langs, ","), Mode: "number",
-								CueDur: cd, Region: reg, N: n, NowMS: now, URL: url, RefURL: refURL, Concurrent: true}
+								CueDur: cd, Region: reg, N: n, NowMS: now, URL: url, RefURL: refURL, Concurrent: true, Snr: -1, Tsbd: -1}
 							in.EffCue = in.cue()
 							jobs = append(jobs, &job{in: in, ref: ro, ts: ts, trex: trexFor[wvtt]})
 						}
@@ -1239,6 +1261,7 @@ func (r *runner) mpdCase(ls *lib.Livesim, a *lib.TLAsset, sc subsCfg, cfg lib.TL
 		c.Res.Inputs[id] = in
 		c.Fail(id, "mpd-mirror", fmt.Sprintf("%s: %d generated subtitle adaptation sets, %d languages configured", url, len(subs), want), in)
 	}
+	listedDone := false
 	for _, s := range subs {
 		idn, id := r.id()
 		c.Res.Inputs[id] = in
@@ -1292,6 +1315,12 @@ func (r *runner) mpdCase(ls *lib.Livesim, a *lib.TLAsset, sc subsCfg, cfg lib.TL
 				}
 			}
 			r.terms = append(r.terms, fmt.Sprintf("CMpdTl %d %d %s %s %s", idn, vAS.Timescale, lib.Cbool(exact), entriesTerm(ve), entriesTerm(se)))
+			if ok && !listedDone && len(s.Timeline) == len(vAS.Timeline) {
+				listedDone = true
+				if err := r.listedSegments(ls, a, sc, cfg, now, ts, generated, url, vAS, s); err != nil {
+					return err
+				}
+			}
 		} else {
 			if s.Duration != vAS.Duration*1000/vAS.Timescale {
 				fail(fmt.Sprintf("duration %d, video %d/%d", s.Duration, vAS.Duration, vAS.Timescale))
@@ -1300,6 +1329,85 @@ func (r *runner) mpdCase(ls *lib.Livesim, a *lib.TLAsset, sc subsCfg, cfg lib.TL
 		}
 	}
 	_ = generated
+	return nil
+}
+
+// listedSegments: MPD-driven. Every subtitle segment the MPD lists (SegmentTimeline with $Time$ or
+// $Number$) is requested, together with the video segment listed at the same position, and checked
+// like any other segment: it must be served and be the subtitle segment of that video segment.
+func (r *runner) listedSegments(ls *lib.Livesim, a *lib.TLAsset, sc subsCfg, cfg lib.TLCfg, now int64, ts int64, generated bool, mpdURL string, vAS, s *lib.ASObs) error {
+	c := r.c
+	ref := a.Ref()
+	rep := s.RepIDs[0]
+	wvtt := strings.HasPrefix(rep, "timewvtt-")
+	lang := rep[strings.Index(rep, "-")+1:]
+	initURL := fmt.Sprintf("/livesim2/%s%s/%s/init.mp4?nowMS=%d", cfg.URLPrefix(), a.Path, rep, now)
+	ri := ls.GetRaw(initURL)
+	f, err := mp4.DecodeFile(bytes.NewReader(ri.Body))
+	if ri.Status != 200 || err != nil || f.Init == nil || f.Init.Moov.Mvex == nil {
+		_, id := r.id()
+		in := map[string]any{"kind": "init", "url": initURL}
+		c.Res.Inputs[id] = in
+		c.Fail(id, fmt.Sprintf("listed:init-status-%d", ri.Status), initURL+" (initialization of a listed representation)", in)
+		return nil
+	}
+	trex := f.Init.Moov.Mvex.Trex
+	n := len(s.Timeline)
+	step := 1
+	if n > 16 { // long time-shift buffers: the oldest, the newest and a stride in between
+		step = n / 12
+	}
+	for k := 0; k < n; k++ {
+		if !(k < 3 || k >= n-3 || k%step == 0) {
+			continue
+		}
+		vid, sid := vAS.StartNumber+int64(k), s.StartNumber+int64(k)
+		if sc.Mode == "tlt" {
+			vid, sid = vAS.Timeline[k].T, s.Timeline[k].T
+		}
+		refURL := lib.SegURL(a, cfg, ref, vid, now)
+		if sc.Mode == "tlt" && sid != roundDiv(vid*1000, vAS.Timescale) {
+			// the listed time has drifted from the video segment's time in ms (assets off the ms grid:
+			// reported by the MPD check under off-ms-grid:mpd-timeline-drift); nothing to request
+			c.Count("listed-segment:drifted-time")
+			continue
+		}
+		ro := lib.ObserveSeg(ls.GetRaw(refURL), ref)
+		url := fmt.Sprintf("/livesim2/%s%s/%s/%d.m4s?nowMS=%d", cfg.URLPrefix(), a.Path, rep, sid, now)
+		in := segIn{Kind: "segment", Asset: a.Path, Gen: generated, Wvtt: wvtt, Lang: lang, Langs: strings.Join(append(append([]string{}, sc.Stpp...), sc.Wvtt...), ","), Mode: sc.Mode,
+			StartS: sc.StartS, CueDur: sc.CueDur, Region: sc.Region, N: int64(k), NowMS: now, URL: url, RefURL: refURL, Snr: sc.Snr, Tsbd: sc.Tsbd, Listed: true, MPDURL: mpdURL}
+		in.EffCue = in.cue()
+		idn, id := r.id()
+		c.Res.Inputs[id] = in
+		c.Count("listed-segment:" + sc.Mode)
+		r.evals++
+		if ro.Status != 200 {
+			c.Fail(id, fmt.Sprintf("listed:video-status-%d", ro.Status), fmt.Sprintf("%s: video segment %d of the SegmentTimeline of %s is not served (%d %s)", refURL, k, mpdURL, ro.Status, ro.Panic), in)
+			continue
+		}
+		in.OffGrid = (ro.Tfdt*1000)%ts != 0
+		in.LateU = (roundDiv(ro.Tfdt*1000, ts) + sc.StartS*1000) % 1000
+		c.Res.Inputs[id] = in
+		o := parseSubSegment(ls.GetRaw(url), wvtt, trex)
+		if o.Status == -1 {
+			c.Fail(id, "malformed-segment", url+": "+o.Err, in)
+			continue
+		}
+		before := len(c.Res.OracleFailures)
+		checkSegment(c, id, in, ro, ts, o)
+		for i := before; i < len(c.Res.OracleFailures); i++ {
+			if strings.HasPrefix(c.Res.OracleFailures[i].Key, "status-") {
+				c.Res.OracleFailures[i].Key = "listed:" + c.Res.OracleFailures[i].Key
+				c.Res.OracleFailures[i].What += " - the segment is listed in " + mpdURL
+			}
+		}
+		reqTime := "None"
+		if sc.Mode == "tlt" {
+			reqTime = fmt.Sprintf("(Some %d)", sid)
+		}
+		r.terms = append(r.terms, fmt.Sprintf("CSeg %d %s {| r_nr := %d; r_time := %d; r_dur := %d; r_ts := %d |} %s %d %d %d %d %d %d %s %s",
+			idn, lib.Cbool(wvtt), ro.Seq, ro.Tfdt, ro.Dur, ts, reqTime, sc.StartS, in.cue(), o.Status, o.Nr, o.Time, o.Dur, cuesTerm(o.Cues), samplesTerm(o.Samples)))
+	}
 	return nil
 }
 
